@@ -52,9 +52,8 @@ static PyObject* PyCGauleg_cgauleg(PyObject* self, PyObject* args) {
 
 		z=cos( pi*(i-0.25)/(npts+.5) );
 
-		abszdiff = fabs(z-z1);
-
-		while (abszdiff > EPS) 
+		// always refine at least once: the derivative pp is needed below
+		do
 		{
 			p1 = 1.0;
 			p2 = 0.0;
@@ -70,7 +69,7 @@ static PyObject* PyCGauleg_cgauleg(PyObject* self, PyObject* args) {
 
 			abszdiff = fabs(z-z1);
 
-		}
+		} while (abszdiff > EPS);
 
 		x[i-1] = xm - xl*z;
 		x[npts+1-i-1] = xm + xl*z;
